@@ -37,7 +37,7 @@ func headerPath(k *Kind) string {
 }
 
 func runC01(w *World, r *Report) {
-	r.Rule("declen", "stored length fields the size rules rely on are kept equal to the element size by every constructor and builder", 14)
+	r.Rule("declen", "stored length fields the size rules rely on are kept equal to the element size by every constructor and builder", 13)
 	declenRule(w, r)
 	codes, err := loadCodes()
 	if err != nil {
